@@ -113,7 +113,7 @@ CLAIMS = {
     "C14": dict(
         text="For explanation chains up to length 3 with symbolic positions the recorded conflict has every flow step and its reported position is the last step of the non-nil flow; and for every "
              "line/column within the bound toPos yields a valid token.Pos that the file set maps back to the same file and line, for real files, fake archive files (padded on demand) and files the set did not know.",
-        note="Partial: report position and position mapping only; existence of files on disk, drivers and path printing are environment. Executes the real go/token file-set code.",
+        note="Partial: report position and position mapping only; existence of files on disk, drivers and path printing are environment. Executes the real go/token file-set code. Source level (P14): for every two-package program of the C01 grammar each diagnostic of the real pipeline has a valid position on an existing line, a non-empty flow whose positioned steps all exist, and its last positioned step is the reported position. " + PIPE_NOTE + "",
     ),
     "C20": dict(
         text="First sentence, within a grammar bound: for every generated one-parameter one-result function (real parser, type checker and SSA builder executed by the symbolic executor) an inferred nonnil->nonnil contract "
